@@ -28,7 +28,9 @@ MsgNames == {"Define", "Bind", "UpdateBinding", "Disable", "Enable", "RefundDepo
 ModNames == {"ModCreate", "ModPause", "ModStart", "ModKill", "ModUpdate"}
 SubNames == {"BeginEndBlock", "ExpireBatch", "Mid", "StartBatch", "EndBlock"}
 \* events that are not steps of the system: start of a new history, observation of the state
-MetaNames == {"reset", "restore", "Obs", "PrepZeroHeight", "Genesis", "Restart"}
+MetaNames == {"reset", "restore", "Obs", "PrepZeroHeight", "Genesis", "Restart", "TxAbort"}
+\* ("TxAbort": a transaction of several messages failed at a later message - the effects of its earlier
+\* messages, which were steps like any other, are dropped and the state is that before the transaction)
 \* (zero-height preparation and export end a history: the chain stops there, and only C19 and
 \* C20 speak about those two steps)
 
